@@ -1,5 +1,6 @@
 """Discharging obligations: z3 (python API) first, then /usr/bin/cvc5, then /usr/bin/z3 4.8."""
 import os
+import sys
 import subprocess
 import tempfile
 import time
@@ -66,13 +67,31 @@ def _goal_conjuncts(g, depth=0):
     return [g]
 
 
+def _dump_unknown(pc, g):
+    """development aid: PYVC_DUMP_UNKNOWN=<dir> writes the problem of every goal conjunct that stays undecided"""
+    d = os.environ.get('PYVC_DUMP_UNKNOWN')
+    if not d:
+        return
+    s = z3.Solver()
+    for t in pc:
+        s.add(t)
+    s.add(z3.Not(g))
+    import hashlib
+    txt = s.to_smt2()
+    with open(os.path.join(d, 'unknown-%s.smt2' % hashlib.md5(txt.encode()).hexdigest()[:10]), 'w') as f:
+        f.write('; goal conjunct: %s\n' % str(g).replace('\n', ' ')[:2000] + txt)
+
+
 def discharge(pc, goal, want_smt2=False, all_backends=False, scale=1):
     """Check validity of  And(pc) => goal.  A conjunctive goal is proved conjunct by conjunct (each query
     is much easier for the string solvers than the conjunction); the first conjunct that is not proved
     decides the verdict."""
     parts = _goal_conjuncts(goal)
     if len(parts) <= 1:
-        return _discharge1(pc, goal, want_smt2, all_backends, scale)
+        v = _discharge1(pc, goal, want_smt2, all_backends, scale)
+        if v.status == 'unknown':
+            _dump_unknown(pc, goal)
+        return v
     t0 = time.time()
     last = None
     unknown = None
@@ -83,6 +102,8 @@ def discharge(pc, goal, want_smt2=False, all_backends=False, scale=1):
             return v
         if v.status == 'unknown' and unknown is None:
             unknown = v
+        if v.status == 'unknown':
+            _dump_unknown(pc, g)
         last = v
     v = unknown or last
     v.time = time.time() - t0
@@ -167,7 +188,7 @@ def _abstract_apps(terms, congruence=True):
     return out
 
 
-def _by_rewriting(pc, goal, external=False):
+def _by_rewriting(pc, goal, external=False, skip_z3=False):
     """Cheap first attempt: abstract uninterpreted applications, eliminate defined symbols (solve-eqs) and
     simplify.  Decides the many obligations that are pure rewriting with the equations on the path -- where
     the string solvers, given the same equations as word equations, do not terminate."""
@@ -182,7 +203,7 @@ def _by_rewriting(pc, goal, external=False):
             s = z3.Solver()
             s.set('timeout', 2000)
             s.add(*[sub[i] for i in range(len(sub))])
-            r = s.check()
+            r = z3.unknown if (skip_z3 and external) else s.check()      # (skip_z3: z3 has been tried on this already)
             if r == z3.unsat:
                 continue
             if r == z3.unknown and external:
@@ -337,6 +358,40 @@ def _relevant(hyps, goal, rounds=3):
     return [h for k, (_ss, h) in enumerate(syms) if chosen[k] or not _ss]
 
 
+MAX_CASES = 6
+
+
+def _by_cases(hyps, g):
+    """Proof by cases on WHERE the goal's skolem constant lies: for a goal about f(.., k, ..) with k the skolem
+    constant of a universally quantified goal, and the ground terms t1..tn at which the hypotheses mention
+    f(.., t, ..):  k == t1 | ... | k == tn | none of them.  Each case is a smaller problem (in the first n the
+    constant is substituted away); together they are exhaustive, so this is sound.  The solvers do not find this
+    split themselves when the rest of the problem is about strings."""
+    occ_g = _ground_args([g])
+    sks = {}
+    for (name, pos), args in occ_g.items():
+        for key, a in args.items():
+            if z3.is_const(a) and a.decl().kind() == z3.Z3_OP_UNINTERPRETED and a.decl().name().startswith('sk!'):
+                sks.setdefault(key, (a, []))[1].append((name, pos))
+    if len(sks) != 1:
+        return False
+    k, places = list(sks.values())[0]
+    occ_h = _ground_args(hyps)
+    cands = {}
+    for pl in places:
+        for key, a in occ_h.get(pl, {}).items():
+            if not a.eq(k) and a.sort() == k.sort() and k.sexpr() not in key.split() and not z3.is_int_value(a):
+                cands.setdefault(key, a)
+    if not cands or len(cands) > MAX_CASES:
+        return False
+    cases = [k == a for a in cands.values()] + [z3.And(*[k != a for a in cands.values()])]
+    for c in cases:
+        hs = hyps + [c]
+        if not (_by_rewriting(hs, g) or _by_rewriting(hs, g, external=True, skip_z3=True)):
+            return False
+    return True
+
+
 def _attempts(flat, qf, goal, scale):
     """the cheap, hypothesis-dropping / instantiating attempts (see ENGINE.md 8); None if none succeeds"""
     t0 = time.time()
@@ -345,10 +400,23 @@ def _attempts(flat, qf, goal, scale):
     sk = _instantiated(flat, goal)
     if sk is not None:
         for g in _goal_conjuncts(z3.simplify(sk[1])):
+            _tr = [time.time()]
+
+            def _trace(what, ok):
+                if os.environ.get('PYVC_TRACE_ATTEMPTS'):
+                    now = time.time()
+                    print('ATTEMPT %-14s %-5s %5.1fs  %s' % (what, ok, now - _tr[0], str(g).replace('\n', ' ')[-70:]),
+                          file=sys.stderr, flush=True)
+                    _tr[0] = now
+                return ok
             rel = _relevant(sk[0], g)
-            if len(rel) < len(sk[0]) and _by_rewriting(rel, g, external=True):
+            if len(rel) < len(sk[0]) and _trace('relevant', _by_rewriting(rel, g, external=True)):
                 continue
-            if _by_rewriting(sk[0], g, external=True):
+            if _trace('rewriting', _by_rewriting(sk[0], g)):
+                continue
+            if _trace('cases', _by_cases(sk[0], g)):
+                continue
+            if _trace('rewriting-ext', _by_rewriting(sk[0], g, external=True, skip_z3=True)):
                 continue
             v = _discharge2(sk[0], g, False, False, scale, quick=True)
             if v.status != 'unsat':
@@ -365,8 +433,24 @@ def _discharge1(pc, goal, want_smt2=False, all_backends=False, scale=1):
     flat = []
     for t in pc:
         flat.extend(_goal_conjuncts(t))
-    if z3.is_true(goal) or all_backends or os.environ.get('PYVC_NO_ATTEMPTS'):
-        return _discharge2(flat, goal, want_smt2, all_backends, scale)
+    if all_backends and not z3.is_true(goal):
+        # thorough tier: the verdict is found as in the quick tier (same strategies, same budgets: a verdict must
+        # not depend on the tier); a proof is then cross-checked: the full problem goes to the external back
+        # ends as well, and a counter-model from one of them is a disagreement (their time-outs are not)
+        v = _discharge1(pc, goal, want_smt2, False, scale)
+        if v.status == 'unsat':
+            s = z3.Solver()
+            for t in flat:
+                s.add(t)
+            s.add(z3.Not(goal))
+            smt2 = s.to_smt2()
+            v2 = _external(smt2, flat + [goal])
+            if v2 is not None and v2.status == 'sat':
+                return Verdict('unknown', 'disagreement', v.time, smt2=smt2,
+                               reason='%s unsat / %s sat' % (v.backend, v2.backend))
+        return v
+    if z3.is_true(goal) or os.environ.get('PYVC_NO_ATTEMPTS'):
+        return _discharge2(flat, goal, want_smt2, False, scale)
     qf = [t for t in flat if not _has_quantifier(t)]
     if _uses_strings(flat + [goal]):
         # what z3 decides about the full problem it usually decides at once
